@@ -24,6 +24,7 @@ type Exec struct {
 	NOpts    []int    // number of options at each step
 	Trace    []string // the released option at each step
 	FPs      []uint64 // fingerprint of every quiescent state
+	Roles    []string // role (first parking site) of every thread seen
 	Res      any      // scenario-specific result
 	Viol     []Viol
 	Diverged string
@@ -93,6 +94,12 @@ func order(policy string, opts []vrt.Option, last int, ctl *vrt.Ctl) []vrt.Optio
 			pick(func(p vrt.Option) bool { return p.Tid == o.Tid })
 		}
 	default: // "run": keep running the last released thread
+		if role, ok := strings.CutPrefix(policy, "slow:"); ok {
+			// every goroutine started at one spawn site is arbitrarily slow: it runs only when nothing else can
+			fast := func(o vrt.Option) bool { return ctl.Role(o.Tid) != role }
+			pick(func(o vrt.Option) bool { return o.Tid == last && fast(o) })
+			pick(fast)
+		}
 		pick(func(o vrt.Option) bool { return o.Tid == last })
 	}
 	pick(func(vrt.Option) bool { return true })
@@ -120,6 +127,12 @@ func (s *Stepper) Step() bool {
 	o := opts[c]
 	if i < len(s.expect) && s.expect[i] != o.String() && s.x.Diverged == "" {
 		s.x.Diverged = fmt.Sprintf("step %d: replay released %q, recorded %q", i, o.String(), s.expect[i])
+	}
+	if n := len(s.Ctl.Threads); n != len(s.x.Roles) {
+		s.x.Roles = s.x.Roles[:0]
+		for _, t := range s.Ctl.Threads {
+			s.x.Roles = append(s.x.Roles, t.Role)
+		}
 	}
 	s.x.Choices = append(s.x.Choices, c)
 	s.x.NOpts = append(s.x.NOpts, len(opts))
